@@ -475,10 +475,12 @@ def i5_i6(prog: Program, chk: Check) -> None:
         if not (isinstance(x, ast.BinOp) and isinstance(x.op, ast.Mult)):
             continue
         for w, k in ((x.left, x.right), (x.right, x.left)):
+            nid = du5.node_of(x)
+            if isinstance(k, ast.Name) and nid is not None:
+                k = expand(du5, nid, k, depth=1)       # the Kronecker term held in a local
             if not (isinstance(k, ast.Call) and (dotted(k.func) or "").split(".")[-1] == "kron"
                     and len(k.args) == 2):
                 continue
-            nid = du5.node_of(x)
             a0, a1 = expand(du5, nid, k.args[0]), expand(du5, nid, k.args[1])
             for pos, a in ((0, a0), (1, a1)):
                 if isinstance(a, ast.Subscript) and dotted(a.value) == "self._site_liouvillians":
